@@ -282,6 +282,10 @@ def run_program(nodes, observe, captured, labels, yield_now=lambda: None, depth=
           require(yielded == model.current, 'yielded-scope',
                   lambda: f'{spec}: yielded {yielded} model {model.current}')
           captured.append(yielded)
+          observe.snaps.append((yielded, list(model.current)))
+          if isinstance(entry, list):
+            observe.snaps.append((entry, list(model.current)))
+          del observe.snaps[:-24]
           observe(call=True, what=f'inside {spec}')
           run_program(children, observe, captured, labels, yield_now, depth + 1)
           observe(call=False, what=f'end of body {spec}')
@@ -336,10 +340,19 @@ def make_observer(log, label):
       want = M.overlay(BINDINGS, exp).get('p', 'default')
       require(got == want, 'scoped-binding',
               lambda: f'{label}{what}: probe got {got!r}, model {want!r} under {exp}')
+    # Scope lists the program holds (yielded by `with ... as s`, or passed in as an explicit list)
+    # and never edits: nothing Gin does later -- entering a nested scope, leaving one, another
+    # activation of the same list -- may change them.
+    for obj, snap in snaps:
+      require(list(obj) == snap, 'held-scope-list-changed',
+              lambda: f'{label}{what}: a scope list held by the program reads {list(obj)}, '
+                      f'it was {snap} when obtained (active scope {exp})')
     log.append(tuple(cur))
 
+  snaps = []
   observe.stack = stack
   observe.stash = []
+  observe.snaps = snaps
   return observe
 
 
